@@ -14,6 +14,11 @@ harness/toy_ptycho.c09_recon_checks.
                        with a changed batch size, validation losses, batch sizes 1 / non-dividing / > n,
                        all loss types, none / grid / inverted grid / random splits
   reset_fields_check   every field the model's reset_recon assigns, compared with a fresh object
+  soft_constraint_check  batch invariance of the reported epoch loss and of the accumulated gradient with NON-ZERO
+                       soft-constraint weights (object tv_weight_xy / tv_weight_z / surface_zero_weight, probe
+                       tv_weight, dataset descan_tv_weight, all together) on a state reached by real iterations
+                       (non-flat object, moved descan shifts); epoch loss against the model's
+                       mean_over_reg_batches (additive regulariser) on exact rationals
 
 Every function returns [(key, what, replay, found_input)] and updates ctx coverage."""
 from __future__ import annotations
@@ -28,12 +33,14 @@ from .common import cbool, cfloat, cnat, cnl, cq, cz
 LOSS_TYPES = ["l2_amplitude", "l1_amplitude", "l2_intensity", "l1_intensity", "poisson"]
 
 PRE = """From QV.lib Require Import Prelude Chunks FloatBits.
-From QV.model Require Import C09_Model C09_Model_Ext.
+From QV.model Require Import C09_Model C09_Model_Ext C09_Model_Reg.
 From Coq Require Import QArith PrimFloat.
 Local Close Scope Q_scope.
 Definition qpair (q : Q) := let r := Qred q in (Qnum r, Zpos (Qden r)).
 Definition qbatches (N : nat) (bs : list (list Q)) :=
   (map (fun c => qpair (batch_loss N 1 c)) bs, qpair (mean_over_batches N 1 bs)).
+(* round 7: epoch loss with an additive regulariser r (soft constraints) *)
+Definition qreg (N : nat) (r : Q) (bs : list (list Q)) := qpair (mean_over_reg_batches N 1 r bs).
 """
 
 _frozen = False
@@ -591,6 +598,187 @@ def loss_tie_check(ctx):
 
 
 # ----------------------------------------------------------------------------------------------
+# batch invariance with non-zero soft-constraint weights (round 7)
+
+# every soft constraint the toy's models have: (model, key, needs at least this many slices)
+SOFT_KINDS = [("object", "tv_weight_xy", 1), ("object", "tv_weight_z", 2), ("object", "surface_zero_weight", 3),
+              ("probe", "tv_weight", 1), ("dataset", "descan_tv_weight", 1)]
+SOFT_OBJECTS = [("complex", 1), ("potential", 3), ("pure_phase", 3), ("complex", 3), ("potential", 1), ("pure_phase", 2)]
+SOFT_SGD = {"object": {"type": "sgd", "lr": 1e-3}, "probe": {"type": "sgd", "lr": 1e-3}, "dataset": {"type": "sgd", "lr": 1e-3}}
+SOFT_WARM = {"object": {"type": "adam", "lr": 2e-2}, "probe": {"type": "adam", "lr": 1e-3}, "dataset": {"type": "adam", "lr": 2e-2}}
+
+
+def _soft_cons(weights, positivity):
+    """a complete constraints dictionary: every soft weight is given explicitly (constraints persist between
+    reconstruct calls), `weights` = {(model, key): value} for the non-zero ones"""
+    c = {"object": {"tv_weight_xy": 0, "tv_weight_z": 0, "surface_zero_weight": 0, "positivity": bool(positivity)},
+         "probe": {"tv_weight": 0.0, "orthogonalize_probe": False},
+         "dataset": {"descan_tv_weight": 0.0}}
+    for (m, k), v in weights.items():
+        c[m][k] = float(v)
+    return c
+
+
+def _soft_state(st):
+    """the state the invariance is examined on: a toy problem after `warm_iters` real mini-batch iterations that
+    optimise object, probe and dataset (descan shifts) — non-flat object, non-constant descan shifts"""
+    import warnings
+    from . import toy_ptycho as tp
+    pt = tp.build_toy(seed=st["seed"] % 97, scan=tuple(st["scan"]), rng_seed=st["seed"], obj_type=st["obj_type"],
+                      num_slices=st["num_slices"])
+    with warnings.catch_warnings():
+        warnings.simplefilter("ignore")
+        pt.reconstruct(num_iters=st["warm_iters"], reset=True, optimizer_params=SOFT_WARM, batch_size=st["warm_batch"],
+                       constraints=_soft_cons({}, st["positivity"]), loss_type=st["loss_type"])
+    return pt
+
+
+def _soft_epoch(pt, b, st, weights):
+    """one epoch at FIXED parameters (no reset, the optimiser step only records): the reported epoch loss, the
+    per-batch gradients of object / probe / descan shifts, the batches with their data terms"""
+    import warnings
+
+    def g(p):
+        return None if p is None or p.grad is None else p.grad.detach().clone().numpy()
+
+    rec = Recorder(pt, freeze=True)
+    grads = []
+    so = pt.step_optimizers
+
+    def step():
+        grads.append((g(pt.obj_model._obj), g(getattr(pt.probe_model, "_probe", None)), g(pt.dset._descan_shifts)))
+        so()
+
+    pt.step_optimizers = step
+    try:
+        with warnings.catch_warnings():
+            warnings.simplefilter("ignore")       # "calculating TV loss for phase …" once per batch
+            pt.reconstruct(num_iters=1, reset=False, optimizer_params=SOFT_SGD, batch_size=b,
+                           constraints=_soft_cons(weights, st["positivity"]), loss_type=st["loss_type"])
+    finally:
+        rec.close()
+    return float(pt._iter_losses[-1]), grads, rec.epochs[-1]["train"]
+
+
+def _soft_compare(pt, st, weights, b, full=None):
+    """the property text on one (state, constraint dictionary, divisor batch size): reported epoch loss and mean of
+    the per-batch gradients against the full-batch values.  Returns (problems, full, (loss_b, batches))"""
+    n = st["scan"][0] * st["scan"][1]
+    if full is None:
+        full = _soft_epoch(pt, n, st, weights)
+    lb, gb, bts = _soft_epoch(pt, b, st, weights)
+    bad = []
+    if len(gb) != n // b:
+        bad.append(("toy-batch-count", "epoch with batch size %d over %d patterns ran %d optimiser steps" % (b, n, len(gb))))
+    dl = abs(lb - full[0]) / max(1e-30, abs(full[0]))
+    if not dl <= 2e-4:
+        bad.append(("toy-batch-mean-loss-soft-constraints",
+                    "mean of per-batch losses %.9g != full-batch loss %.9g (rel %.3g) with soft constraints %s "
+                    "(batch size %d | %d patterns, %s, %s object with %d slice(s) after %d iterations)" % (
+                        lb, full[0], dl, {"%s.%s" % k: v for k, v in weights.items()}, b, n, st["loss_type"],
+                        st["obj_type"], st["num_slices"], st["warm_iters"])))
+    for k, nm in ((0, "object"), (1, "probe"), (2, "descan-shift")):
+        if not gb or gb[0][k] is None or full[1][0][k] is None:
+            continue
+        gm = np.mean([x[k] for x in gb], axis=0)
+        rel = _rel(gm, full[1][0][k])
+        if not rel <= 2e-3:
+            bad.append(("toy-batch-mean-grad-soft-constraints",
+                        "mean of per-batch %s gradients differs from the full-batch gradient by rel %.3g with soft "
+                        "constraints %s (batch size %d | %d patterns, %s, %s object with %d slice(s))" % (
+                            nm, rel, {"%s.%s" % k2: v for k2, v in weights.items()}, b, n, st["loss_type"],
+                            st["obj_type"], st["num_slices"])))
+    return bad, full, (lb, bts)
+
+
+def soft_constraint_check(ctx):
+    """batch invariance (property text: 'the mean of the per-batch losses and gradients equals the full-batch loss
+    and gradient' — the loss reconstruct() reports and the gradients it steps with include the soft constraints)
+    for constraint dictionaries with NON-ZERO soft-constraint weights, on states reached by real iterations.
+    Every weight is calibrated on the full batch so that its term is a drawn share (0.1 … 3) of the data term; a
+    kind whose regulariser vanishes on the state (flat object) is counted as trivial.  The epoch loss is also
+    compared with the model's mean_over_reg_batches (per-pattern data terms from a batch-size-1 epoch, regulariser
+    value from the full batch)."""
+    setup()
+    r = ctx.rng
+    out = []
+    objs = [r.choice(SOFT_OBJECTS)] if ctx.quick else SOFT_OBJECTS
+    exprs, meta = [], []
+    for (ot, ns) in objs:
+        scan = r.choice([(3, 4), (4, 4), (2, 6), (2, 5)])
+        n = scan[0] * scan[1]
+        st = {"kind": "toy-soft", "scan": list(scan), "seed": r.randrange(1, 1 << 20), "obj_type": ot, "num_slices": ns,
+              "warm_iters": r.choice([1, 2, 3]), "warm_batch": r.choice([d for d in range(1, n + 1)]),
+              "positivity": (r.random() < 0.4) if ot == "potential" else True,
+              "loss_type": r.choice(LOSS_TYPES if not ctx.quick else LOSS_TYPES[:4])}
+        pt = _soft_state(st)
+        divisors = [d for d in range(1, n) if n % d == 0]
+        l0 = _soft_epoch(pt, n, st, {})[0]
+        # per-pattern data terms (exact floats), for the model
+        eps1 = _soft_epoch(pt, 1, st, {})[2]
+        single = {bt[0]: l for bt, l in eps1}
+        calibrated = {}
+        kinds = [(m, k) for m, k, need in SOFT_KINDS if ns >= need]
+        for kind in kinds + ["all"]:
+            if kind == "all":
+                if len(calibrated) < 2:
+                    continue
+                weights = {k: w / len(calibrated) for k, w in calibrated.items()}
+                label = "all-together"
+            else:
+                l1 = _soft_epoch(pt, n, st, {kind: 1.0})[0]
+                label = "%s.%s" % kind
+                if not (l1 - l0) > 1e-4 * abs(l0):      # the regulariser vanishes on this state
+                    ctx.dist("softreg/%s=vanishes-on-state" % label)
+                    ctx.count(("softreg", ot, ns, label, "flat"), nontrivial=False)
+                    continue
+                share = 0.1 * 30.0 ** r.random()
+                calibrated[kind] = share * abs(l0) / (l1 - l0)
+                weights = {kind: calibrated[kind]}
+            full = None
+            nb = len(divisors) if not ctx.quick else (2 if kind == "all" else 1)
+            for b in r.sample(divisors, min(nb, len(divisors))):
+                bad, full, (lb, bts) = _soft_compare(pt, st, weights, b, full)
+                soft_share = (full[0] - l0) / max(1e-30, abs(full[0]))
+                ctx.count(("softreg", ot, ns, label, b, st["loss_type"]), nontrivial=soft_share > 0.02 and b < n)
+                ctx.dist("softreg/%s" % label)
+                ctx.dist("softreg/object=%s-%dslice" % (ot, ns))
+                rp = dict(st, batch=b, weights=[[m, k, float(w)] for (m, k), w in weights.items()])
+                for key, what in bad:
+                    out.append((key, what, rp, True))
+                if sorted(i for bt, _ in bts for i in bt) == list(range(n)) and sorted(single) == list(range(n)):
+                    exprs.append("qreg %s %s [%s]" % (cnat(n), cq(Fraction(full[0]) - Fraction(l0)), "; ".join(
+                        "[" + "; ".join(cq(Fraction(single[i]) / n) for i in bt) + "]" for bt, _ in bts)))
+                    meta.append((rp, lb, full[0], bool(bad)))
+    vals = ctx.coq_eval("softreg", PRE, exprs, shard=40) if exprs else []
+    nd = 0
+    for (rp, lb, lfull, obad), v in zip(meta, vals):
+        ctx.cov["traces_validated_against_impl"] += 1
+        mm = float(Fraction(v[0], v[1]))
+        if not abs(mm - lb) <= 1e-4 * max(1e-30, abs(lfull)):
+            nd += 1
+            ctx.cov["disagreements_checked"] += 1
+            out.append(("loss-scaling-correspondence",
+                        "epoch loss with soft constraints is not the model's mean over batches of (scaled data term + "
+                        "regulariser): implementation %.9g, model %.9g (full batch %.9g) [%s]" % (lb, mm, lfull, rp),
+                        rp, obad))
+    if meta:
+        ctx.sample({"kind": "toy-soft", "case": meta[-1][0], "epoch_loss": meta[-1][1], "full_batch_loss": meta[-1][2]})
+    ctx.log("soft constraints: %d (state, constraint dictionary, divisor batch size) comparisons, %d model disagreements" % (len(meta), nd))
+    return out
+
+
+def replay_soft(rp):
+    """re-run one soft-constraint case exactly; returns the list of (key, what) the oracle reports"""
+    setup()
+    pt = _soft_state(rp)
+    weights = {(m, k): w for m, k, w in rp["weights"]}
+    bad, full, (lb, _) = _soft_compare(pt, rp, weights, rp["batch"])
+    print("full-batch loss %.9g, epoch loss with batch size %d: %.9g" % (full[0], rp["batch"], lb))
+    return bad
+
+
+# ----------------------------------------------------------------------------------------------
 # determinism / reset
 
 
@@ -786,7 +974,7 @@ def reset_fields_check(ctx):
 
 def all_checks(ctx):
     res, seen = [], {}
-    for f in (rng_mixin_check, recon_schedule_check, loss_tie_check, determinism_checks, reset_fields_check):
+    for f in (rng_mixin_check, recon_schedule_check, loss_tie_check, soft_constraint_check, determinism_checks, reset_fields_check):
         for item in f(ctx):
             seen[item[0]] = seen.get(item[0], 0) + 1
             if seen[item[0]] <= 2:          # at most two reports per key: the rest repeat the same cause
